@@ -517,3 +517,18 @@ func (s *vfSim) setFailAll(name string, v bool) {
 		p.mu.Unlock()
 	}
 }
+
+// vfProphetMetadata builds the metadata bundle a PRoPHET peer sends: its summary vector.
+func vfProphetMetadata(src, dst string, preds map[string]float64, seq uint64) bpv7.Bundle {
+	m := map[bpv7.EndpointID]float64{}
+	for k, v := range preds {
+		m[bpv7.MustNewEndpointID(k)] = v
+	}
+	b, err := bpv7.Builder().CRC(bpv7.CRC32).Source(src).Destination(dst).CreationTimestampNow().Lifetime("1m").
+		BundleCtrlFlags(bpv7.MustNotFragmented).Canonical(bpv7.NewProphetBlock(m)).PayloadBlock(byte(1)).Build()
+	if err != nil {
+		panic(err)
+	}
+	b.PrimaryBlock.CreationTimestamp[1] = seq
+	return b
+}
